@@ -109,6 +109,9 @@ func scenarios(run *report.Run) []scen {
 	for rep := 0; rep < run.Pick(4, 16); rep++ {
 		res = append(res, scen{Order: []string{"idleedge"}, Callers: 1 + rep%4, Idle: []time.Duration{300, 150, 600, 1000}[rep/4%4] * time.Microsecond, MaxWorkers: 1 + rep%3, Trials: run.Pick(2500, 10000)})
 	}
+	for rep := 0; rep < run.Pick(16, 32) && os.Getenv("VERIF_PASS") == "asynctimerchan"; rep++ { // old timer-channel semantics only
+		res = append(res, scen{Order: []string{"stalephase"}, Callers: 1, Idle: 400 * time.Millisecond, MaxWorkers: 2, Trials: run.Pick(8, 40) + rep})
+	}
 	for rep := 0; rep < run.Pick(3, 8); rep++ {
 		res = append(res, scen{Order: []string{"rendezvous"}, Callers: 1, Idle: []time.Duration{20, 200}[rep%2] * time.Millisecond, MaxWorkers: []int{10, 2, 5}[rep%3], Trials: run.Pick(10, 40)})
 	}
@@ -309,6 +312,60 @@ func rendezvous(sc scen) (fs []tmon.Finding, nFut int, stats map[string]int64, i
 	fs = append(fs, jf...)
 	stats["worst_lateness_with_waiting_callbacks_us"] = int64(worst / time.Microsecond)
 	return fs, len(mon.Futures()), stats, ""
+}
+
+// stalePhase: two idle workers out of phase by half an idle timeout (400 ms); a job 30 ms ahead is scheduled at
+// the very moment the older sleeper's idle timer expires (swept by +-100 us), so that its wake-up and its timer
+// tick arrive together. Whoever takes the wake-up has to serve the job on time: with callbacks that return at
+// once it must start within 100 ms of its due time (healthy: < 5 ms; a worker that goes away on a stale tick
+// leaves it to the other worker's idle round, about 170 ms later). Trials during which the canary saw a stall
+// above 25 ms are discarded. Meaningful under the old timer-channel semantics (pass asynctimerchan).
+func stalePhase(sc scen) (fs []tmon.Finding, nFut int, stats map[string]int64, inconclusive string) {
+	stats = map[string]int64{}
+	setup(sc)
+	rng := rand.New(rand.NewSource(int64(sc.Trials)*31 + int64(sc.MaxWorkers)))
+	total := 0
+	for tr := 0; tr < sc.Trials; tr++ {
+		mon := tmon.New()
+		cn := tmon.StartCanary()
+		// two workers: two jobs due together, each busy for 2 ms
+		a, b := mon.Call(time.Millisecond, 2*time.Millisecond, false), mon.Call(time.Millisecond, 2*time.Millisecond, false)
+		t0 := time.Now()
+		for a.Started() == 0 || b.Started() == 0 {
+			if time.Since(t0) > lateBound+time.Second {
+				break
+			}
+			time.Sleep(100 * time.Microsecond)
+		}
+		time.Sleep(3 * time.Millisecond)
+		idleFrom := time.Now() // both workers are idle from about now on
+		time.Sleep(sc.Idle / 2)
+		mon.Call(0, 0, false) // one of them serves this and starts its idle period anew
+		target := idleFrom.Add(sc.Idle + time.Duration(rng.Intn(200)-100)*time.Microsecond)
+		for time.Now().Before(target) {
+		}
+		n := mon.Call(30*time.Millisecond, 0, false)
+		final, lost := tmon.Drain(60 * time.Second)
+		stall := cn.Stop()
+		total += len(mon.Futures())
+		if !final {
+			return nil, total, stats, "drain watchdog after a stale-phase trial: " + lost
+		}
+		stats["stale_phase_trials"]++
+		if stall > 25*time.Millisecond {
+			stats["stale_phase_trials_discarded_for_a_stall"]++
+			continue
+		}
+		if n.Started() == 0 {
+			fs = append(fs, tmon.Finding{Sig: "timer/never-started", What: "the job scheduled at an idle-timer expiry was never started"})
+			break
+		}
+		if late := n.StartAt() - n.Due(); late > 100*time.Millisecond {
+			fs = append(fs, tmon.Finding{Sig: "timer/late-after-wake-up-at-idle-expiry", What: fmt.Sprintf("two idle workers, out of phase by %v; a job 30 ms ahead was scheduled at the moment the older sleeper's idle timer expired: it started %v late (healthy < 5 ms, bound 100 ms, canary stall %v)", sc.Idle/2, late, stall), TimeBound: true})
+			break
+		}
+	}
+	return fs, total, stats, ""
 }
 
 // chase: a goroutine schedules the next call the moment it sees the previous callback run (swept by 0..2 us):
@@ -531,6 +588,9 @@ func runScenario(sc scen) (fs []tmon.Finding, nFut int, stats map[string]int64, 
 	if len(sc.Order) == 1 && sc.Order[0] == "contended" {
 		return contendedWindDown(sc)
 	}
+	if len(sc.Order) == 1 && sc.Order[0] == "stalephase" {
+		return stalePhase(sc)
+	}
 	if len(sc.Order) == 1 && sc.Order[0] == "rendezvous" {
 		return rendezvous(sc)
 	}
@@ -751,7 +811,7 @@ func TestChild(t *testing.T) {
 	if os.Getenv("VERIF_PASS") == "asynctimerchan" {
 		var short []scen
 		for i, s := range list {
-			if (i%8 == 0 && s.Idle < time.Second) || s.Order[0] == "idleedge" || s.Order[0] == "idleconvoy" {
+			if (i%8 == 0 && s.Idle < time.Second) || s.Order[0] == "idleedge" || s.Order[0] == "idleconvoy" || s.Order[0] == "stalephase" {
 				short = append(short, s)
 			}
 		}
